@@ -299,6 +299,12 @@ fn seeds() -> Vec<Vec<u8>> {
         docgen::response_bytes(&[AppDoc::new("app-A", docgen::Uc::NoUpdate)], &Daystart::Absent),
         docgen::response_bytes(&[AppDoc::new("app-X", docgen::Uc::OkNoManifest), a], &Daystart::NoDays),
         b")]}'\n{\"response\":{\"protocol\":\"3.0\",\"app\":[{\"appid\":\"app-A\",\"status\":\"ok\",\"updatecheck\":{\"status\":\"ok\"}}]}}".to_vec(),
+        // multi-byte characters of every width all over the document (truncations of it are valid UTF-8 at many lengths)
+        format!(
+            "{{\"response\":{{\"protocol\":\"3.0\",\"server\":\"{x}\",\"app\":[{{\"appid\":\"app-A\",\"status\":\"ok\",\"cohortname\":\"{x}\",\"updatecheck\":{{\"status\":\"noupdate\",\"{x}\":\"{x}\"}}}}]}}}}",
+            x = "\u{e9}\u{20ac}\u{1d11e}".repeat(12)
+        )
+        .into_bytes(),
     ]
 }
 
